@@ -7,6 +7,7 @@ import (
 	"strconv"
 	"strings"
 	"sync/atomic"
+	"unicode/utf8"
 
 	jsoniter "github.com/json-iterator/go"
 )
@@ -1365,6 +1366,23 @@ func cast2Type(val interface{}, col *Column, dedupStore *DataStore) interface{} 
 	return nil
 }
 
+// writeJSONString writes a JSON string. jsoniter's Stream.WriteString copies bytes >= 0x80 verbatim,
+// so invalid UTF-8 is replaced first (like encoding/json and jsoniter's WriteVal do).
+func writeJSONString(jsonwriter *jsoniter.Stream, str string) {
+	if !utf8.ValidString(str) {
+		str = strings.ToValidUTF8(str, "\uFFFD")
+	}
+	jsonwriter.WriteString(str)
+}
+
+// writeJSONField writes an object key followed by a colon, see writeJSONString.
+func writeJSONField(jsonwriter *jsoniter.Stream, str string) {
+	if !utf8.ValidString(str) {
+		str = strings.ToValidUTF8(str, "\uFFFD")
+	}
+	jsonwriter.WriteObjectField(str)
+}
+
 // WriteJSON directly writes all columns to output buffer.
 func (d *DataRow) WriteJSON(jsonwriter *jsoniter.Stream, columns []*Column) {
 	jsonwriter.WriteArrayStart()
@@ -1403,9 +1421,9 @@ func (d *DataRow) WriteJSONColumn(jsonwriter *jsoniter.Stream, col *Column) {
 func (d *DataRow) WriteJSONLocalColumn(jsonwriter *jsoniter.Stream, col *Column) {
 	switch col.DataType {
 	case StringCol:
-		jsonwriter.WriteString(d.dataString[col.Index])
+		writeJSONString(jsonwriter, d.dataString[col.Index])
 	case StringLargeCol:
-		jsonwriter.WriteString(d.dataStringLarge[col.Index].String())
+		writeJSONString(jsonwriter, d.dataStringLarge[col.Index].String())
 	case StringListCol:
 		jsonwriter.WriteArrayStart()
 		list := d.dataStringList[col.Index]
@@ -1413,7 +1431,7 @@ func (d *DataRow) WriteJSONLocalColumn(jsonwriter *jsoniter.Stream, col *Column)
 			if i > 0 {
 				jsonwriter.WriteMore()
 			}
-			jsonwriter.WriteString(list[i])
+			writeJSONString(jsonwriter, list[i])
 		}
 		jsonwriter.WriteArrayEnd()
 	case IntCol:
@@ -1439,9 +1457,9 @@ func (d *DataRow) WriteJSONLocalColumn(jsonwriter *jsoniter.Stream, col *Column)
 				jsonwriter.WriteMore()
 			}
 			jsonwriter.WriteArrayStart()
-			jsonwriter.WriteString(members[idx][0])
+			writeJSONString(jsonwriter, members[idx][0])
 			jsonwriter.WriteMore()
-			jsonwriter.WriteString(members[idx][1])
+			writeJSONString(jsonwriter, members[idx][1])
 			jsonwriter.WriteArrayEnd()
 		}
 		jsonwriter.WriteArrayEnd()
@@ -1482,14 +1500,14 @@ func (d *DataRow) WriteJSONEmptyColumn(jsonwriter *jsoniter.Stream, col *Column)
 func (d *DataRow) WriteJSONVirtualColumn(jsonwriter *jsoniter.Stream, col *Column) {
 	switch col.DataType {
 	case StringCol:
-		jsonwriter.WriteString(d.GetString(col))
+		writeJSONString(jsonwriter, d.GetString(col))
 	case StringListCol:
 		jsonwriter.WriteArrayStart()
 		for i, s := range d.GetStringList(col) {
 			if i > 0 {
 				jsonwriter.WriteMore()
 			}
-			jsonwriter.WriteString(s)
+			writeJSONString(jsonwriter, s)
 		}
 		jsonwriter.WriteArrayEnd()
 	case IntCol:
@@ -1530,9 +1548,9 @@ func (d *DataRow) WriteJSONVirtualColumn(jsonwriter *jsoniter.Stream, col *Colum
 				if i > 0 {
 					jsonwriter.WriteMore()
 				}
-				jsonwriter.WriteObjectField(names[i])
+				writeJSONField(jsonwriter, names[i])
 				if i < len(values) {
-					jsonwriter.WriteString(values[i])
+					writeJSONString(jsonwriter, values[i])
 				} else {
 					jsonwriter.WriteRaw("null")
 				}
